@@ -8,7 +8,31 @@ import ArgMapper.Model.Args
 namespace ArgMapper.Driver
 open ArgMapper
 
-def unTilde (s : String) : String := if s = "~" then "" else s
+/-- protocol encoding of names / subtypes: `~` is the empty string, `%XX` a byte -/
+def hexVal (c : UInt8) : Nat :=
+  if c ≥ 48 ∧ c ≤ 57 then c.toNat - 48 else if c ≥ 65 ∧ c ≤ 70 then c.toNat - 55 else if c ≥ 97 ∧ c ≤ 102 then c.toNat - 87 else 0
+
+def decBytes : List UInt8 → List UInt8
+  | 37 :: a :: b :: rest => UInt8.ofNat (hexVal a * 16 + hexVal b) :: decBytes rest
+  | c :: rest => c :: decBytes rest
+  | [] => []
+
+def unTilde (s : String) : String :=
+  if s = "~" then "" else
+  if !s.contains '%' then s else
+  match String.fromUTF8? (ByteArray.mk (decBytes s.toUTF8.toList).toArray) with
+  | some r => r
+  | none => s
+
+def hexDigit (n : Nat) : Char := if n < 10 then Char.ofNat (48 + n) else Char.ofNat (55 + n)
+
+/-- inverse of `unTilde` (what the harness's `e2s` prints) -/
+def tilde (s : String) : String :=
+  if s = "" then "~" else
+  String.join (s.toUTF8.toList.map (fun c =>
+    if (c ≥ 97 ∧ c ≤ 122) ∨ (c ≥ 65 ∧ c ≤ 90) ∨ (c ≥ 48 ∧ c ≤ 57) ∨ c = 95 ∨ c = 61 ∨ c = 46 ∨ c = 43 ∨ c = 47 ∨ c = 45
+    then (Char.ofNat c.toNat).toString
+    else "%" ++ (hexDigit (c.toNat / 16)).toString ++ (hexDigit (c.toNat % 16)).toString))
 
 /-- `name:ty:sub[:vid]` (sub may contain `=` but no `:`) -/
 def parseLabelV (s : String) : Label × Nat :=
@@ -19,7 +43,7 @@ def parseLabelV (s : String) : Label × Nat :=
 
 def parseLabel (s : String) : Label := (parseLabelV s).1
 
-def showLabel (l : Label) : String := s!"{if l.name = "" then "~" else l.name}:{l.ty}:{if l.sub = "" then "~" else l.sub}"
+def showLabel (l : Label) : String := s!"{tilde l.name}:{l.ty}:{tilde l.sub}"
 
 def parseField (s : String) : Field :=
   match s.splitOn "|" with
@@ -45,10 +69,10 @@ def lookupLine (vs : ValueSet) : List String :=
     | v :: rest =>
       let showO := fun (o : Option SVal) => match o with | some x => showLabel x.lab | none => "-"
       let acc1 := if v.lab.name ≠ "" ∧ !seenN.contains v.lab.name
-        then s!"named:{v.lab.name}@{showO (vs.namedLookup v.lab.name)}" :: acc else acc
+        then s!"named:{tilde v.lab.name}@{showO (vs.namedLookup v.lab.name)}" :: acc else acc
       let acc2 := if !seenT.contains v.lab.ty
         then s!"typed:{v.lab.ty}@{showO (vs.typedLookup v.lab.ty)}" :: acc1 else acc1
-      let acc3 := s!"tsub:{v.lab.ty}:{if v.lab.sub = "" then "~" else v.lab.sub}@{showO (vs.typedSubLookup v.lab.ty v.lab.sub)}" :: acc2
+      let acc3 := s!"tsub:{v.lab.ty}:{tilde v.lab.sub}@{showO (vs.typedSubLookup v.lab.ty v.lab.sub)}" :: acc2
       go rest (v.lab.name :: seenN) (v.lab.ty :: seenT) acc3
   go vs.values [] [] []
 
@@ -126,17 +150,33 @@ def runSig (b : Block) : Res :=
 
 /-! ### vset (C15) -/
 
-def runVset (b : Block) : Res :=
+def runVset (b : Block) (validates : Bool := true) : Res :=
   let vals := ((field b "v").getD []).map parseLabelV
   let labs := vals.map (·.1)
   let distinct := (kv b.head "distinct").getD "true" == "true"
-  let impl := ((field b "impl").getD []).headD "?"
-  if impl ≠ "ok" then { conform := some s!"impl_{impl}", prop := some s!"NewValueSet_failed_{impl}" } else
+  let implL := (field b "impl").getD []
+  let impl := implL.headD "?"
+  let model := if validates then newValueSetChecked labs else newValueSetOfValues labs
+  -- a label that cannot be represented in a struct is refused with an error (never a panic, never a set that
+  -- describes other values)
+  if impl ≠ "ok" then
+    let panicked := (kv implL "panic").getD "false" == "true"
+    match model with
+    | .error _ =>
+      { conform := if panicked then some "impl_panicked_model_error" else none,
+        prop := if panicked then some "NewValueSet_panicked" else none,
+        stats := [s!"size={labs.length}", "class=rejected"] }
+    | .ok _ => { conform := some s!"impl_{impl}_model_ok", prop := some s!"NewValueSet_failed_on_representable_values{if panicked then "_panic" else ""}" }
+  else
   let iv := ((field b "iv").getD []).map parseLabel
   let ilk := (field b "ilk").getD []
   let rt := ((field b "rt").getD []).map parseLabelV
-  match newValueSetOfValues labs with
-  | .error _ => { conform := some "model_rejects" }
+  match model with
+  | .error _ =>
+    -- the code built a set from labels that cannot survive the struct: judge what it reports
+    let want := labs.map (fun l => { l with name := lower l.name })
+    { conform := some "model_rejects_impl_ok",
+      prop := if iv ≠ want then some s!"values={showLabels iv}_expected={showLabels want}" else none }
   | .ok vs =>
     let c : Option String :=
       if vs.labels ≠ iv then some s!"values_model={showLabels vs.labels}_impl={showLabels iv}"
@@ -152,11 +192,11 @@ def runVset (b : Block) : Res :=
       else if !distinct then none
       else want.findSome? (fun l =>
         if l.name ≠ "" then
-          (if findLk s!"named:{l.name}" = some (showLabel l) then none else some s!"Named({l.name})_wrong")
+          (if findLk s!"named:{tilde l.name}" = some (showLabel l) then none else some s!"Named({tilde l.name})_wrong")
         else if findLk s!"typed:{l.ty}" ≠ some (showLabel l) then some s!"Typed({l.ty})_wrong"
         else if (want.filter (fun x => x.ty = l.ty ∧ x.sub = l.sub)).length = 1 ∧
-                findLk s!"tsub:{l.ty}:{if l.sub = "" then "~" else l.sub}" ≠ some (showLabel l)
-          then some s!"TypedSubtype({l.ty},{l.sub})_wrong"
+                findLk s!"tsub:{l.ty}:{tilde l.sub}" ≠ some (showLabel l)
+          then some s!"TypedSubtype({l.ty},{tilde l.sub})_wrong"
         else none)
     { conform := c, prop := p, stats := [s!"size={labs.length}", s!"class={if distinct then "distinct" else "dups"}"] }
 
